@@ -698,3 +698,58 @@ def _mk_serverbase(family):
 
 for _f in ('json', 'yaml', 'msgpack', 'msgpackrpc', 'xml', 'soap11', 'soap12'):
     _mk_serverbase(_f)
+
+
+def _mk_soap_headers(family):
+    @obligation('C10.soap_headers.%s' % family, targets=['spyne.protocol.soap.soap11:Soap11.deserialize',
+                                                         'spyne.protocol.soap.soap11:_from_soap'],
+                bounded="a service that declares one input header class x 9 Header contents (absent, the declared block, a "
+                        "foreign block such as wsse:Security alone / before / after the declared one, an unqualified block, "
+                        "the declared block twice, text only, an empty Header) x 3 validators",
+                desc="whatever header blocks a SOAP request carries -- declared, foreign, repeated, malformed -- the request "
+                     "ends in a normal response or a Client fault; no exception escapes")
+    def ob(c):
+        from spyne.model.complex import ComplexModel
+        ns = SOAP11_NS if family == 'soap11' else SOAP12_NS
+        calls = []
+
+        class Token(ComplexModel):
+            __namespace__ = TNS
+            user = Unicode
+
+        def m(ctx, i):
+            calls.append(1)
+            return i
+        m._pyvc_native = True
+        Svc = type(ServiceBase)('HSvc', (ServiceBase,), {'__in_header__': Token, 'm': rpc(Integer, _returns=Integer)(m)})
+        validator = c.choose(['soft', None, 'lxml'], 'validator')
+        inp, outp = protocols(family, validator)
+        wsgi = WsgiApplication(Application([Svc], TNS, name='VApp', in_protocol=inp, out_protocol=outp))
+        declared = '<tns:Token><tns:user>u</tns:user></tns:Token>'
+        foreign = '<wsse:Security xmlns:wsse="urn:wsse" e:mustUnderstand="0"><wsse:UsernameToken>x</wsse:UsernameToken></wsse:Security>'
+        hdr = c.choose([None, declared, foreign, foreign + declared, declared + foreign, '<plain>text</plain>', declared + declared,
+                        'just text', ''], 'header_content')
+        doc = '<e:Envelope xmlns:e="%s" xmlns:tns="%s">%s<e:Body><tns:m><tns:i>5</tns:i></tns:m></e:Body></e:Envelope>' % (
+            ns, TNS, '' if hdr is None else '<e:Header>%s</e:Header>' % hdr)
+        body = doc.encode()
+        env = {'REQUEST_METHOD': 'POST', 'PATH_INFO': '/', 'QUERY_STRING': '', 'SERVER_NAME': 'h', 'SERVER_PORT': '80',
+               'wsgi.url_scheme': 'http', 'wsgi.input': io.BytesIO(body), 'CONTENT_TYPE': 'text/xml', 'CONTENT_LENGTH': str(len(body))}
+        seen = []
+
+        def sr(status, headers, exc_info=None):
+            seen.append(status)
+        sr._pyvc_native = True
+        out = c.run(wsgi, env, sr)
+        resp = None
+        if out.returned:
+            chunks = []
+            o2 = c.run(lambda: chunks.extend(list(out.value)))
+            if o2.raised:
+                out = o2
+            resp = b''.join(x for x in chunks if isinstance(x, bytes))
+        _verdict(c, family, out, seen, resp, calls, detail=(validator, hdr))
+    return ob
+
+
+for _f in ('soap11', 'soap12'):
+    _mk_soap_headers(_f)
